@@ -357,6 +357,15 @@ def correspond(ctx, scale):
                             break
                         r2 = flat_out(call(f, mod, x, op, seed + 1))
                         dist['repeat_checked'] += 1
+                        if oi % 4 == 1:
+                            # ... and again, several times: the n-th identical pure call gives what the first gave (no counter, cache or schedule ticks)
+                            for rep_i in range(5):
+                                r_n = flat_out(call(f, mod, x, op, seed + 2 + rep_i))
+                                if not outs_equal(r1, r_n):
+                                    failures.append({'key': f'{f["name"]}:{op}:not-repeatable:nth-call', 'what': f'{f["name"]}: the {rep_i + 3}-th identical pure call "{op}" gave a different result than the first (history {trace})',
+                                                     'case': dict(name=f['name'], ops=trace)})
+                                    break
+                            dist['repeated_five_times'] = dist.get('repeated_five_times', 0) + 1
                         if not outs_equal(r1, r2):
                             failures.append({'key': f'{f["name"]}:{op}:not-repeatable', 'what': f'{f["name"]}: repeating the pure call "{op}" on the same input gave a different result (history {trace})',
                                              'case': dict(name=f['name'], ops=trace)})
